@@ -26,6 +26,10 @@ impl FromJson for TDate {
         if !matches!(date_str.as_bytes().get(10), Some(b'T' | b't' | b' ')) {
             return Err(anyhow!("date not in RFC3339 format").into());
         }
+        // `time` stands a leap second in by 23:59:59, which is not the supplied instant.
+        if date_str.as_bytes().get(17..19) == Some(&b"60"[..]) {
+            return Err(anyhow!("leap seconds have no tdate rendering").into());
+        }
         Ok(Self(
             OffsetDateTime::parse(&date_str, &Rfc3339)
                 .map_err(|e| anyhow!("date not in RFC3339 format: {}", e))
